@@ -54,6 +54,8 @@ MUTANTS = [
  {"id": "collect-form-slice-one-past-end", "kind": "break", "edits": [{"patch": "/verif/benign/plist-2/patch.diff"}, ("src/plist.rs", ".map(|(start, end)| PlistEntry::from_bytes(&bytes[start..end]))", ".map(|(start, end)| PlistEntry::from_bytes(&bytes[start..end + 1]))")], "expect": ["PANIC@plist::Plist::from_bytes::{closure#0}#call:index"]},
  {"id": "collect-form-pair-recorded-reversed", "kind": "break", "edits": [{"patch": "/verif/benign/plist-2/patch.diff"}, ("src/plist.rs", "lines.push((start, bytes.len()));", "lines.push((bytes.len(), start));")], "expect": ["PANIC@plist::Plist::from_bytes::{closure#0}#call:index"]},
  {"id": "loop-form-pair-recorded-reversed", "kind": "break", "edits": [("src/plist.rs", "lines.push((start, bytes.len()));", "lines.push((bytes.len(), start));")], "expect": ["PANIC@plist::Plist::from_bytes#call:index"]},
+ {"id": "single-pass-benign", "kind": "benign", "edits": [{"patch": "/verif/benign/m-plist-2/patch.diff"}]},
+ {"id": "single-pass-slice-without-order", "kind": "break", "edits": [{"patch": "/verif/benign/m-plist-2/patch.diff"}, ("src/plist.rs", "if start < idx && tstart < idx {\n                    let entry", "if tstart < idx {\n                    let entry")], "expect": ["PANIC@plist::Plist::from_bytes#call:index"]},
  {"id": "probe-panic-division-by-len", "kind": "break", "edits": [(S, "        let slen = input_string.len();", "        let slen = input_string.len();\n        let _avg = slen / self.entries.len();")], "expect": ["PANIC"]},
  {"id": "probe-panic-remove-first-entry", "kind": "break", "edits": [(L, "        Ok(plist)\n    }\n\n    /**\n     * Return the package name as specified", "        if plist.entries.len() > 1000000 {\n            plist.entries.remove(0);\n        }\n        Ok(plist)\n    }\n\n    /**\n     * Return the package name as specified")], "expect": []},
 ]
